@@ -205,7 +205,11 @@ C02Scenario(r, s) ==
          THEN {"C02.skip_stops"} ELSE {})
    \* dry-run: no step function is ever called
    \cup (IF r.cfg.dry /\ StepEvs(r, s) # {} THEN {"C02.dry"} ELSE {})
-C02(r) == UNION {C02Scenario(r, s) : s \in Scens(r)}
+\* "what ITS step function did": the function that runs is one registered for the step's own type (given / when / then,
+\* And / But inheriting it) or a generic one -- never the function another step type registered under the same text
+C02Own(r) == IF \E i \in Ix(r) : LET e == Ev(r, i) IN e.k = "step" /\ e.pos # 0 /\ e.via \notin {"step", StepsOf(r, e.el)[e.pos].stype}
+             THEN {"C02.own_function"} ELSE {}
+C02(r) == C02Own(r) \cup UNION {C02Scenario(r, s) : s \in Scens(r)}
 
 \* ======================================================================= C03 (roll-up on final statuses of real runs)
 ChildStatuses(r, c) == IF Kind(r, c) = "scenario" THEN r.end.step_status[c]
